@@ -40,7 +40,7 @@ WEIGHTS.update({"svd": 0, "tensordot": 7, "ncon": 3, "fuse": 4, "fuse_pair": 2.5
 
 
 def budget(tier):
-    return 1200 if tier == "quick" else 25000
+    return 2500 if tier == "quick" else 25000
 
 
 # ---- contract_with_unroll ---------------------------------------------------------------------------------
